@@ -245,7 +245,8 @@ def _expected_iterations(when, cold, attempts, now_after):
 
 
 # ---------------------------------------------------------------------------
-def simulate(seed, nstreams, maxrate, amount, think, n_reads, late, abandon_at, mode='uniform', closing=None, amounts=None):
+def simulate(seed, nstreams, maxrate, amount, think, n_reads, late, abandon_at, mode='uniform', closing=None, amounts=None,
+             preempt=None):
     """Run real BandwidthLimitedStreams sharing one LeakyBucket under the deterministic scheduler in
     virtual time.  think(i, k) -> seconds before stream i's k-th read; late: extra delay added to
     every sleep; abandon_at: {stream: k} the transfer of that stream fails during its k-th wait, or
@@ -258,7 +259,14 @@ def simulate(seed, nstreams, maxrate, amount, think, n_reads, late, abandon_at, 
     import io
     from sched import Scheduler
     from shim import Installed
-    sch = Scheduler(seed=seed, mode=mode, max_steps=400000)
+    if preempt is not None:
+        # one thread is descheduled for a long time at its k-th lock acquisition (virtual time goes on meanwhile)
+        import random as _random
+        sch = Scheduler(seed=seed, mode='stall', max_steps=400000,
+                        stall={'class': 'lock-acquire', 'nth': preempt, 'len': _random.Random(seed).choice([3, 8, 20, 60, 200, 1000])},
+                        stall_preempts=True)
+    else:
+        sch = Scheduler(seed=seed, mode=mode, max_steps=400000)
     grants, refusals, sleeps, errors = [], [], [], []
     bad_returns, refused_after_fail, nconsume = [], {}, {}
     closed = []
@@ -484,12 +492,16 @@ def oracle(seed, tier):
         maxrate = rng.choice([1 << 20, 1 << 16, 100000])
         amount = rng.choice([1 << 18, 1 << 14, 50000])
         base = amount / maxrate
-        kind = rng.choice(['saturated', 'around', 'below', 'mixed', 'abandon'])
+        kind = rng.choice(['saturated', 'around', 'below', 'mixed', 'abandon', 'staggered'])
         r2 = rng_for(rng.randrange(1 << 30), 'think')
         if kind == 'saturated':
             think = lambda i, k: 0.0
         elif kind == 'around':
             think = lambda i, k: base * nstreams * r2.choice([0.8, 1.0, 1.25, 0.99, 1.01])
+        elif kind == 'staggered':
+            # the streams take turns, one read every 1.5 x amount/max: demand stays below the limit at every instant
+            nstreams = max(nstreams, 2)
+            think = lambda i, k: (i * 1.5 * base) if k == 0 else nstreams * 1.5 * base
         elif kind == 'below':
             think = lambda i, k: base * nstreams * r2.uniform(1.3, 3.0) + (i * base * 1.3 if k == 0 else 0)
         else:
@@ -514,15 +526,19 @@ def oracle(seed, tier):
             for i in range(nstreams):
                 if rng.random() < 0.5:
                     amounts[i] = amount * rng.choice([2, 3, 5, 8])
+        preempt = None
+        if kind == 'staggered' or (kind in ('below', 'around', 'mixed') and nstreams >= 2 and rng.random() < 0.5):
+            preempt = rng.randrange(0, 40)
         sim = simulate(rng.randrange(1 << 30), nstreams, maxrate, amount, think, n_reads, late, abandon_at, closing=closing,
-                       amounts=amounts)
+                       amounts=amounts, preempt=preempt)
         res.evaluations += 1
         if res.enough():
             break
         res.hit(kind)
         wit = {'streams': nstreams, 'max_bandwidth': maxrate, 'read_amount': amount, 'traffic': kind, 'reads_per_stream': n_reads,
                'late_wakeups': late(0, 0) != 0.0 or True, 'abandoned': abandon_at, 'closed_with_pending_bytes': closing,
-               'read_amount_per_stream': amounts}
+               'read_amount_per_stream': amounts,
+               'a_thread_descheduled_at_its_lock_acquisition': preempt}
         if sim['fail'] is not None:
             res.violation('limiter-hangs', wit, repr(sim['fail']))
             continue
